@@ -11,5 +11,8 @@ cp /repo/go.sum mc/go.sum 2>/dev/null || true
 OV=$(mktemp -d /tmp/verif-overlay.XXXXXX)
 .build/instr -repo /repo -shim "$PWD/shim/vsched" -out "$OV" -mode full >/dev/null && \
   (cd mc && go build -tags verif,verifinst -overlay "$OV/overlay.json" -o ../.build/mc-inst ./cmd/mc) || echo "setup: instrumented build failed (checks will retry/degrade)"
+# race-detector build of the harness (supplementary pass of C05/C20): warms the cache; needs cgo
+mkdir -p "$OV/none" && .build/instr -repo /repo -shim "$PWD/shim/vsched" -out "$OV/none" -mode none >/dev/null && \
+  (cd mc && CGO_ENABLED=1 go build -race -tags verif,verifinst -overlay "$OV/none/overlay.json" -o ../.build/mc-race ./cmd/mc) || echo "setup: race-detector build failed (the supplementary pass will be skipped)"
 python3 -c "import shutil,sys; shutil.rmtree(sys.argv[1], ignore_errors=True)" "$OV"
 echo "setup ok"
